@@ -305,6 +305,9 @@ static int install_cert(SSL_CTX *ssl_ctx, const char *cert_data, void *log_ref)
 
     LOG_TLS_CERT_INSTALLED(log_ref);
 
+    /* what ends the loop below is read off the error queue */
+    ERR_clear_error();
+
     X509 *chain_cert;
     while ((chain_cert = PEM_read_bio_X509(bio, NULL, 0, NULL)) != NULL) {
 	if (SSL_CTX_add0_chain_cert(ssl_ctx, chain_cert) != 1) {
@@ -317,7 +320,9 @@ static int install_cert(SSL_CTX *ssl_ctx, const char *cert_data, void *log_ref)
 
     unsigned long err = ERR_peek_last_error();
 
-    if (ERR_GET_LIB(err) == ERR_LIB_PEM &&
+    /* the only regular way out of the loop is "no more PEM blocks";
+       an empty block stops the PEM reader without any error queued */
+    if (ERR_GET_LIB(err) != ERR_LIB_PEM ||
 	ERR_GET_REASON(err) != PEM_R_NO_START_LINE) {
 	LOG_TLS_ERR_PARSING_TC(log_ref);
 	goto out_free_cert;
